@@ -303,3 +303,110 @@ pub fn run_effect(spec: &FxSpec, sr: u32, ibs: usize, input: &[Frame], partition
 	}
 	out
 }
+
+// ---------------------------------------------------------------- scripted decoder
+
+use kira::sound::streaming::Decoder;
+use std::sync::atomic::{AtomicBool, AtomicU64, Ordering as AtOrd};
+
+#[derive(Default)]
+pub struct DecoderObs {
+	pub decode_calls: AtomicU64,
+	pub seek_calls: AtomicU64,
+	pub dropped: AtomicBool,
+	/// dropped while the current thread was inside an audio callback
+	pub dropped_in_callback: AtomicBool,
+	pub frames_served: AtomicU64,
+}
+
+#[derive(Clone, Debug)]
+pub struct DecoderScript {
+	pub sample_rate: u32,
+	/// packet sizes, cycled (each >= 1)
+	pub packets: Vec<usize>,
+	/// seeks land on the largest multiple of this that is <= the requested index
+	pub seek_granularity: usize,
+	/// fail the k-th decode call (1-based)
+	pub fail_decode_at: Option<u64>,
+	/// fail every decode call from the k-th on (a decoder that keeps failing)
+	pub fail_decode_from: Option<u64>,
+	/// fail the k-th seek call (1-based; call 1 is the seek made while the sound is constructed)
+	pub fail_seek_at: Option<u64>,
+	/// microseconds to sleep in every decode call (slow decoder)
+	pub decode_sleep_us: u64,
+}
+
+impl Default for DecoderScript {
+	fn default() -> Self {
+		Self { sample_rate: 48000, packets: vec![1024], seek_granularity: 1, fail_decode_at: None, fail_decode_from: None, fail_seek_at: None, decode_sleep_us: 0 }
+	}
+}
+
+pub struct ScriptedDecoder {
+	pub frames: Arc<Vec<Frame>>,
+	pub script: DecoderScript,
+	pub pos: usize,
+	pub packet_i: usize,
+	pub obs: Arc<DecoderObs>,
+}
+
+impl ScriptedDecoder {
+	pub fn new(frames: Arc<Vec<Frame>>, script: DecoderScript) -> (Self, Arc<DecoderObs>) {
+		let obs = Arc::new(DecoderObs::default());
+		(Self { frames, script, pos: 0, packet_i: 0, obs: obs.clone() }, obs)
+	}
+}
+
+impl Decoder for ScriptedDecoder {
+	type Error = String;
+
+	fn sample_rate(&self) -> u32 {
+		self.script.sample_rate
+	}
+
+	fn num_frames(&self) -> usize {
+		self.frames.len()
+	}
+
+	fn decode(&mut self) -> Result<Vec<Frame>, String> {
+		let k = self.obs.decode_calls.fetch_add(1, AtOrd::SeqCst) + 1;
+		if self.script.decode_sleep_us > 0 {
+			std::thread::sleep(Duration::from_micros(self.script.decode_sleep_us));
+		}
+		if let Some(from) = self.script.fail_decode_from {
+			if k >= from {
+				return Err(format!("injected decode error at call {}", from));
+			}
+		}
+		if self.script.fail_decode_at == Some(k) {
+			return Err(format!("injected decode error at call {}", k));
+		}
+		let n = self.script.packets[self.packet_i % self.script.packets.len()].max(1);
+		self.packet_i += 1;
+		let end = (self.pos + n).min(self.frames.len());
+		let out = self.frames[self.pos.min(end)..end].to_vec();
+		self.pos = end;
+		self.obs.frames_served.fetch_add(out.len() as u64, AtOrd::SeqCst);
+		Ok(out)
+	}
+
+	fn seek(&mut self, index: usize) -> Result<usize, String> {
+		let k = self.obs.seek_calls.fetch_add(1, AtOrd::SeqCst) + 1;
+		if self.script.fail_seek_at == Some(k) {
+			return Err(format!("injected seek error at call {}", k));
+		}
+		let g = self.script.seek_granularity.max(1);
+		let landed = (index.min(self.frames.len()) / g) * g;
+		self.pos = landed;
+		Ok(landed)
+	}
+}
+
+impl Drop for ScriptedDecoder {
+	fn drop(&mut self) {
+		self.obs.dropped.store(true, AtOrd::SeqCst);
+		if crate::monitors::in_callback() {
+			self.obs.dropped_in_callback.store(true, AtOrd::SeqCst);
+		}
+	}
+}
